@@ -27,3 +27,13 @@ Proof. exact global_programs_nonempty_proof. Qed.
 (* No solver class carries class-level mutable objects other than the reviewed ones. *)
 Theorem class_shared_state_reviewed : forall e, In e class_shared_state -> mem (fst e) reviewed_shared_state = true.
 Proof. apply forallb_forall. exact class_shared_state_reviewed_proof. Qed.
+
+(* No module of exactpack/solvers keeps a module-level container (dict / list / set / array) that one of its functions mutates:
+   there is no cache or registry that could survive from one evaluation to the next. *)
+Theorem no_module_level_caches : module_mutated_containers = [].
+Proof. exact no_module_caches_proof. Qed.
+
+(* No solver method other than a constructor reads an attribute of its object before writing it in the same method, except the
+   reviewed idempotent re-stores: no per-object cache carried from one call to the next. *)
+Theorem instance_carried_state_reviewed : forall e, In e instance_carried_state -> mem (fst e) reviewed_carried_state = true.
+Proof. apply forallb_forall. exact instance_carried_state_reviewed_proof. Qed.
